@@ -73,9 +73,15 @@ def gen_basic(r, depth=0):
     return {"$dict": [[k, gen_basic(r, depth + 1)] for k in keys]}
 
 
+EMPTIES = [[], {"$tuple": []}, {"$set": []}, {"$dict": []}, ""]
+
+
 def mut_basic(r, o):
     if r.random() < 0.1:
         return gen_basic(r, 1)
+    if o in EMPTIES and r.random() < 0.4:
+        # an empty container of another kind (empty list / tuple / set / mapping / string): equal "contents", different documents
+        return copy.deepcopy(r.choice([e for e in EMPTIES if e != o]))
     if isinstance(o, list):
         o = [mut_basic(r, x) if r.random() < 0.4 else x for x in o]
         if o and r.random() < 0.3:
